@@ -176,6 +176,18 @@ claim("C20", "proof",
       "checked by oracles, not proved.",
       "Lean 4 proof (prefix structure of the loops) + prefix-by-prefix correspondence under a pass-budget hook + oracles", "5 (C20)")
 
+claim("C08", "proof",
+      "Lean 4 theorems (Props/C08.lean) on the model of find_signal_assignments over abstracted statement lists: exactly one report per "
+      "`<--` statement, anchored at it and in statement order (bijection), of exactly one of the two kinds decided by the degree fact; the "
+      "secondary locations of a `signal assignment` report are exactly the constraints that read the assigned signal with the same access; "
+      "nothing for functions/custom templates; nothing anchored at any other statement. The model is tied to the code per run: every real "
+      "CFG is abstracted from the harness dump and model reports = real CS0005/CS0013 reports (L2); independently an oracle counts `<--` "
+      "tokens/statements in the generated source (incl. tuple elements, anonymous-component inputs, loops, branches) and demands one report "
+      "per occurrence with the expected secondaries (L1).",
+      "Lean kernel + standard axioms; the abstraction CFG -> statement list (harness dump + checks/c08.py) and lifting/desugaring are "
+      "covered by correspondence, not proved; the nodup hypothesis of the bijection theorem is evaluated on every CFG.",
+      "Lean 4 proof (bijection / kinds / secondaries on the pass model) + per-CFG correspondence + source-level counting oracle", "5 (C08)")
+
 ALL = ["C%02d" % i for i in range(1, 21)]
 def main():
     checks = []
